@@ -620,6 +620,11 @@ class VectorContainer:
 
         def resolve_indexes(match: re.match) -> str:
             """Convert the contents of a possibly backticked index expression to integer indexes."""
+            # No period labels to resolve: leave as is (any regular Python
+            # index, not just integers)
+            if match.group(1) is None or '`' not in match.group(1):
+                return match.group(0)
+
             # Treat the contents of `match` as a slice, with up to three
             # components: start, stop, step
             slice_ = match.group(1).split(':')
